@@ -83,6 +83,11 @@ fn step<T: Elt>(m: &mut Matrix<T>, op: &str, a: &mut Args, out: &mut Out) {
             check_same(m, &s1, "*"); check_same(&b, &s2, "*");
             let r2 = m.clone() * b.clone(); if !same(&r, &r2) { panic!("harness: owned/borrowed forms differ (*)"); } out.m(&r); }
         "mul_l" => { let b = a.m::<T>(); let r = &b * &*m; out.m(&r); }
+        // both operands the SAME object (round four): &m + &m, &m - &m, &m * &m
+        "add_self" => { let snap = m.clone(); let r = &*m + &*m; check_same(m, &snap, "+ (same object)"); out.m(&r); }
+        "sub_self" => { let snap = m.clone(); let r = &*m - &*m; check_same(m, &snap, "- (same object)"); out.m(&r); }
+        "mul_self" => { let snap = m.clone(); let r = &*m * &*m; check_same(m, &snap, "* (same object)");
+            let r2 = &*m * &snap; if !same(&r, &r2) { panic!("harness: owned/borrowed forms differ (m * m with one object vs two)"); } out.m(&r); }
         "eye" => { let n = a.usize(); out.m(&Matrix::<T>::eye(n)); }
         "numel" => { out.usize(m.numel()); }
         "clone_mut" => { // clone independence: mutate the clone, original must not move; then mutate original
@@ -141,6 +146,12 @@ pub fn run<T: Elt>(kind: &str, a: &mut Args, out: &mut Out) {
             let mut m2 = m.clone(); let y = m2.solve_lu(&b);
             if !same_v(&b, &bs) { panic!("harness: operand mutated by solve"); }
             out.v(&x); out.v(&y); }
+        // the constructors (round four): Matrix::new(r, c, x) with an arbitrary fill value, Matrix::empty()
+        "mat.ctor" => { let (r, c) = (a.usize(), a.usize()); let x = a.s::<T>();
+            let m = Matrix::<T>::new(r, c, x);
+            out.m(&m); out.usize(m.numel()); out.boolean(m == rebuild(&m) || x != x);
+            let e = Matrix::<T>::empty();
+            out.m(&e); out.usize(e.numel()); out.boolean(e == Matrix::<T>::new(0, 0, x)); }
         "mat.lu" => { let mut m = a.m::<T>(); let (p, perm) = m.lu_decomp_in_place(); out.usize(p); out.m(&perm); out.m(&m); }
         "mat.det" => { let m = a.m::<T>(); let snap = m.clone(); let d = m.determinant(); check_same(&m, &snap, "determinant"); out.s(&d); }
         "mat.inverse" => { let m = a.m::<T>(); let snap = m.clone(); let inv = m.inverse(); check_same(&m, &snap, "inverse"); out.m(&inv); }
